@@ -496,9 +496,142 @@ func (r *rewriter) instrumentList(list []ast.Stmt) []ast.Stmt {
 		} else {
 			out = append(out, exprStmt(call(rt("P"), r.id(s, "plain"))))
 		}
+		if split := r.splitRMW(s); split != nil {
+			out = append(out, split)
+			continue
+		}
 		out = append(out, s)
 	}
 	return out
+}
+
+// pureLHS reports whether evaluating e twice is harmless (identifiers, field selections, derefs and
+// indexing by identifiers/literals only) and whether it denotes memory that other goroutines can reach
+// (anything but a plain local variable).
+func (r *rewriter) pureLHS(e ast.Expr) (pure, shared bool) {
+	switch x := e.(type) {
+	case *ast.Ident:
+		if v, ok := r.info.Uses[x].(*types.Var); ok {
+			return true, v.Parent() == v.Pkg().Scope()
+		}
+		return false, false
+	case *ast.ParenExpr:
+		return r.pureLHS(x.X)
+	case *ast.SelectorExpr:
+		if sel := r.info.Selections[x]; sel != nil && sel.Kind() == types.FieldVal {
+			p, _ := r.pureLHS(x.X)
+			return p, true
+		}
+		if _, ok := r.info.Uses[x.Sel].(*types.Var); ok { // pkg.Var
+			return true, true
+		}
+		return false, false
+	case *ast.StarExpr:
+		p, _ := r.pureLHS(x.X)
+		return p, true
+	case *ast.IndexExpr:
+		p, sh := r.pureLHS(x.X)
+		switch ix := x.Index.(type) {
+		case *ast.BasicLit:
+		case *ast.Ident:
+			_ = ix
+		default:
+			if pi, _ := r.pureLHS(x.Index); !pi {
+				return false, false
+			}
+		}
+		if t := r.info.TypeOf(x.X); t != nil {
+			switch t.Underlying().(type) {
+			case *types.Map, *types.Slice, *types.Pointer:
+				sh = true // element memory is reachable through the map/slice header
+			}
+		}
+		return p, sh
+	}
+	return false, false
+}
+
+// splitRMW rewrites an unsynchronised-looking read-modify-write of shared memory (x++, x op= e,
+// x = append(x, ...)) into read; plain point; write. Under a lock the split is unobservable; if a
+// change to /repo removes or narrows the lock, the lost update becomes reachable by plain-point
+// preemption (the token scheduler otherwise executes a whole statement atomically).
+func (r *rewriter) splitRMW(s ast.Stmt) ast.Stmt {
+	tmp := func() string { return r.tmpName("rmw") }
+	switch x := s.(type) {
+	case *ast.IncDecStmt:
+		if pure, shared := r.pureLHS(x.X); !pure || !shared {
+			return nil
+		}
+		t := tmp()
+		op := token.ADD
+		if x.Tok == token.DEC {
+			op = token.SUB
+		}
+		return &ast.BlockStmt{List: []ast.Stmt{
+			define([]ast.Expr{ident(t)}, x.X),
+			exprStmt(call(rt("P"), r.id(s, "rmw"))),
+			assign([]ast.Expr{x.X}, &ast.BinaryExpr{X: ident(t), Op: op, Y: intLit(1)}),
+		}}
+	case *ast.AssignStmt:
+		if len(x.Lhs) != 1 || len(x.Rhs) != 1 {
+			return nil
+		}
+		if pure, shared := r.pureLHS(x.Lhs[0]); !pure || !shared {
+			return nil
+		}
+		var binop token.Token
+		switch x.Tok {
+		case token.ADD_ASSIGN:
+			binop = token.ADD
+		case token.SUB_ASSIGN:
+			binop = token.SUB
+		case token.MUL_ASSIGN:
+			binop = token.MUL
+		case token.OR_ASSIGN:
+			binop = token.OR
+		case token.AND_ASSIGN:
+			binop = token.AND
+		case token.ASSIGN:
+			// x = append(x, ...)
+			ce, ok := x.Rhs[0].(*ast.CallExpr)
+			if !ok || len(ce.Args) == 0 {
+				return nil
+			}
+			id, ok := ce.Fun.(*ast.Ident)
+			if !ok || id.Name != "append" {
+				return nil
+			}
+			if _, isBuiltin := r.info.Uses[id].(*types.Builtin); !isBuiltin {
+				return nil
+			}
+			if types.ExprString(ce.Args[0]) != types.ExprString(x.Lhs[0]) {
+				return nil
+			}
+			t := tmp()
+			nc := &ast.CallExpr{Fun: ce.Fun, Args: append([]ast.Expr{ident(t)}, ce.Args[1:]...), Ellipsis: ce.Ellipsis}
+			return &ast.BlockStmt{List: []ast.Stmt{
+				define([]ast.Expr{ident(t)}, x.Lhs[0]),
+				exprStmt(call(rt("P"), r.id(s, "rmw"))),
+				assign([]ast.Expr{x.Lhs[0]}, nc),
+			}}
+		default:
+			return nil
+		}
+		if tv, ok := r.info.Types[x.Lhs[0]]; ok {
+			if b, isBasic := tv.Type.Underlying().(*types.Basic); !isBasic || b.Info()&(types.IsNumeric|types.IsString) == 0 {
+				if _, isTP := tv.Type.(*types.TypeParam); !isTP {
+					return nil
+				}
+			}
+		}
+		t := tmp()
+		return &ast.BlockStmt{List: []ast.Stmt{
+			define([]ast.Expr{ident(t)}, x.Lhs[0]),
+			exprStmt(call(rt("P"), r.id(s, "rmw"))),
+			assign([]ast.Expr{x.Lhs[0]}, &ast.BinaryExpr{X: ident(t), Op: binop, Y: &ast.ParenExpr{X: x.Rhs[0]}}),
+		}}
+	}
+	return nil
 }
 
 func (r *rewriter) postCall(c *astutil.Cursor, n *ast.CallExpr) {
